@@ -492,6 +492,7 @@ def run_impl(case):
     maps = []
     objs = {}
     mapid = {}
+    sticky = {}     # per map: the address whose decode_address() answered last
     out = []
 
     def enc_name(nm):
@@ -564,10 +565,17 @@ def run_impl(case):
                     ar = [0, [enc_info(i, ids) for i in m.all_resources()]]
                 except Exception as e:
                     ar = [EXC.get(type(e).__name__, 5)]
-                dc = []
-                for a in addrs:
+                # the address that answered last in the previous round is asked first in this one (whatever was
+                # added in between), then the rest; the answers are stored in the order of `addrs`
+                first = sticky.get(id(m))
+                order = ([first] if first in addrs else []) + [a for a in addrs if a != first or first not in addrs]
+                got = {}
+                for a in order:
                     r = m.decode_address(a)
-                    dc.append([] if r is None else [ids[id(r)]])
+                    got.setdefault(a, r)
+                    if r is not None:
+                        sticky[id(m)] = a
+                dc = [[] if got[a] is None else [ids[id(got[a])]] for a in addrs]
                 fr = []
                 for rid in rids:
                     o = objs.get((rid, 1))
